@@ -14,7 +14,16 @@ import (
 // Rng is splitmix64; every random choice of a run derives from one state.
 type Rng struct{ s uint64 }
 
-func NewRng(seed uint64) *Rng { return &Rng{s: seed*0x9E3779B97F4A7C15 + 0x1234567} }
+// NewRng scrambles the seed first: consecutive seeds (the driver gives parallel generator processes
+// seed*1000+j) must not yield shifted copies of one stream.
+func NewRng(seed uint64) *Rng {
+	z := seed + 0x9E3779B97F4A7C15
+	z = (z ^ (z >> 30)) * 0xBF58476D1CE4E5B9
+	z = (z ^ (z >> 27)) * 0x94D049BB133111EB
+	z = z ^ (z >> 31)
+	z = (z ^ 0xD1B54A32D192ED03) * 0xAEF17502108EF2D9
+	return &Rng{s: z ^ (z >> 29)}
+}
 
 func (r *Rng) U64() uint64 {
 	r.s += 0x9E3779B97F4A7C15
